@@ -693,7 +693,7 @@ theorem gdefs_passes : ∀ (gdefs : List GateDef) (U0 : List GateDef) (st : Init
     have hok' : DefsOk (ds.reverse ++ (d :: U0)) := by
       simpa [List.reverse_cons, List.append_assoc] using hok
     have hdOk : DefsOk (d :: U0) := defsOk_suffix ds.reverse (d :: U0) hok'
-    obtain ⟨_, _, _, _, hgops, _, hU0⟩ := hdOk
+    obtain ⟨hfresh, _, _, _, hgops, _, hU0⟩ := hdOk
     obtain ⟨e1, o1, o2, h1, h2, rfl⟩ := flattenFrom_cons_inv (by simpa using h)
     -- the standard records the definition
     have he1 : e1 = { env with gates := d :: env.gates } ∧ o1 = [] := by
@@ -717,9 +717,23 @@ theorem gdefs_passes : ∀ (gdefs : List GateDef) (U0 : List GateDef) (st : Init
         cases hf : d.body.filter noBarrier with
         | nil => exact absurd hf this
         | cons x xs => simp
+    -- the name is new: no earlier definition of the program carries it
+    have hnd : gateDeclared st d.name = false := by
+      have hnone : U0.find? (fun x => x.name == d.name) = none := by
+        rw [List.find?_append] at hfresh
+        cases hf : U0.find? (fun x => x.name == d.name) with
+        | none => rfl
+        | some x => simp [hf] at hfresh
+      have hany : (U0.map storeDef).any (fun x => x.name == d.name) = false := by
+        rw [List.any_eq_false]
+        intro x hx
+        obtain ⟨y, hy, rfl⟩ := List.mem_map.mp hx
+        have := List.find?_eq_none.mp hnone y hy
+        simpa [storeDef] using this
+      simp [gateDeclared, hd, hany]
     have hstep : initPass (Stmt.gate d :: (ds.map Stmt.gate ++ tail)) st =
         initPass (ds.map Stmt.gate ++ tail) { st with defs := storeDef d :: st.defs } := by
-      simp only [initPass, hd, hbp, hne, Bool.false_eq_true, if_false]
+      simp only [initPass, hnd, Bool.and_false, hd, hbp, hne, Bool.false_eq_true, if_false]
       rfl
     obtain ⟨hi, hf⟩ := ih (d :: U0) { st with defs := storeDef d :: st.defs } { env with gates := d :: env.gates }
       env' tail o2 hok' (by simp [hd]) (by simp [hg]) (by
